@@ -60,11 +60,12 @@ type Case struct {
 	FailAt    []int      `json:"fail_at"`  // indices of the responder's SendMsg attempts that fail
 	StallAt   []int      `json:"stall_at"` // indices of SendMsg attempts that stall until an unstall op / disconnect / the end
 	Retries   int        `json:"retries"`
-	ConnFail  []int      `json:"conn_fail"`  // indices of connect attempts that fail
-	GateAt    int        `json:"gate_at"`    // n-th storage read blocks until a release op (0 = none)
-	MaxInProg int        `json:"max_inprog"` // MaxInProgressIncomingRequests (0 = default)
-	PerPeer   int        `json:"per_peer"`   // MaxInProgressIncomingRequestsPerPeer (0 = unset)
-	EndCancel bool       `json:"end_cancel"` // at the end paused responses are cancelled (else unpaused)
+	ConnFail  []int      `json:"conn_fail"`          // indices of connect attempts that fail
+	GateAt    int        `json:"gate_at"`            // n-th storage read blocks until a release op (0 = none)
+	GateAll   bool       `json:"gate_all,omitempty"` // every read from the n-th on blocks until the release (holds every traversal, not just one)
+	MaxInProg int        `json:"max_inprog"`         // MaxInProgressIncomingRequests (0 = default)
+	PerPeer   int        `json:"per_peer"`           // MaxInProgressIncomingRequestsPerPeer (0 = unset)
+	EndCancel bool       `json:"end_cancel"`         // at the end paused responses are cancelled (else unpaused)
 }
 
 const (
@@ -127,6 +128,7 @@ func Gen(t *rapid.T, maxBlocks int) Case {
 	}
 	if rapid.IntRange(0, 2).Draw(t, "hasgate") == 0 {
 		c.GateAt = rapid.IntRange(1, 6).Draw(t, "gateat")
+		c.GateAll = rapid.Bool().Draw(t, "gateall")
 	}
 	c.MaxInProg = rapid.SampledFrom([]int{0, 0, 1, 2}).Draw(t, "maxinprog")
 	c.PerPeer = rapid.SampledFrom([]int{0, 0, 0, 1}).Draw(t, "perpeer")
@@ -221,7 +223,7 @@ func Run(t *testing.T, c Case) *Result {
 		reads := 0
 		store.ReadHook = func(cc cid.Cid, _ datamodel.Path) error {
 			reads++
-			if c.GateAt > 0 && reads == c.GateAt && !gateOpen {
+			if c.GateAt > 0 && (reads == c.GateAt || (c.GateAll && reads > c.GateAt)) && !gateOpen {
 				<-gate
 			}
 			return nil
